@@ -36,11 +36,12 @@
           router-up <=> the peer has a queue with exactly one live outbound stream, one writer and one dead-stream watcher;
           a queue without a stream exists only while its opener waits for the backoff timer or sits in NewStream.
                                   [pubsub.go:processLoop newPeerStream, handleDeadPeers, handlePendingPeers]   P_X02f_Alternate, P_X02f_OneWriter, P_X02f_Consistent
-   X02.g  SERVED (under fairness).  A connected peer that identify announced, whose NewStream does not fail and that has not
-          been ejected has, once the loop has settled, exactly one queue and - unless the backoff timer is still running -
-          one live stream; a peer found in newPeersPend and peerDeadPend in the same loop turn ends in the state its
-          connectedness dictates, whichever case the loop takes first.
-                                  [pubsub.go:handlePendingPeers, handleDeadPeers, peer_notify.go]   P_X02g_Served
+   X02.g  SERVED (under fairness).  A connected peer that identify announced, whose NewStream does not fail AFTER that
+          announcement and that has not been ejected has, once the loop has settled, exactly one queue and - unless the
+          backoff timer is still running - one live stream; the pending sets are drained; a peer found in newPeersPend and
+          peerDeadPend in the same loop turn ends in the state its connectedness dictates, whichever case the loop takes
+          first; the loop always settles (the re-open cascade is cut by the backoff).
+                                  [pubsub.go:handlePendingPeers, handleDeadPeers, peer_notify.go]   P_X02g_Served, P_X02g_Settles
 
    MODEL.  One action per critical section of the code: an identify notification, one peer of a handlePendingPeers /
    handleDeadPeers turn (the pending map is swapped at the start of the turn, so handling its members one by one is the
@@ -50,7 +51,7 @@
    implementation-shaped model (Jit = 1 in the exhaustive configurations).
    Deliberate deviations: the blacklist is not modelled (C16); topics / interest are not modelled (C05, D12); messages in
    queues are not modelled (C15); time advances only when no internal step is enabled (virtual time of testing/synctest);
-   NewStream towards a peer without connection fails (the swarm would re-dial; the harness forbids it).
+   NewStream towards a peer without connection fails (the real swarm would re-dial: the trace monitor follows the observed connections).
 
    AS FOUND.  WatchAtOpen = TRUE is the code as it is: handleNewPeer starts the dead-stream watcher BEFORE the loop has
    adopted the stream, and peerDeadPend / newPeerStream are matched to p.peers by peer id only.  A stream that dies
